@@ -1,5 +1,6 @@
 // govc:pkg .
 // govc:bound 300 statements (2000 with GOVC_BOUND=thorough) generated from the documented grammar (select items with aliases, arithmetic, function calls, CASE, string literals holding clause keywords; WHERE; GROUP BY with a window; HAVING; ORDER BY; LIMIT; WITH) x 4 re-layouts each (random keyword case, random runs of spaces, tabs and line breaks between tokens, optional blanks around punctuation)
+// govc:also C06 C16 C17
 // Bounded stand-in (NOT a proof) for the faithfulness half of the property, which the totality contracts do not state:
 // the parse of a re-laid-out statement has the same structure as the parse of its canonical spelling (upper-case keywords,
 // single blanks), the canonical parse holds exactly the clauses that were written (WHERE / HAVING text, GROUP BY columns,
